@@ -478,8 +478,6 @@ def in_fragment(dt, s):
         t = s.strip(_WS).replace("_", "")
         if t[:1] in ("+", "-"):
             t = t[1:]
-        if t[:1].lower() in ("i", "n", "s"):
-            return False
         m = re.search("[eE]", t)
         return len(t[m.end():] if m else "") <= 3
     if dt == "date":
@@ -588,6 +586,14 @@ def py_equal(a, b):
         return False
 
 
+def _ne_inconsistent(a, b):
+    """Python equality of the mapped values: `!=` must be the negation of `==` (Duration defines both by hand)"""
+    try:
+        return bool(a != b) is bool(a == b)
+    except Exception:  # noqa: BLE001
+        return False
+
+
 def valid_for(dt, s):
     """lexical validity of `s` for datatype local name `dt` (None = plain literal: every string)"""
     if dt is None:
@@ -677,7 +683,10 @@ def run_lex(case):
         xsdv = "-"
         if valid and dt in DATEY and representable(dt, px[1]) in (None, "datetz") and in_fragment(dt, s):
             xsdv = canon(l0.value)
-        line = (f"lex|{ill(l0)}|{canon(l0.value)}|{int(valid_for(dt, str(l1)))}|{canon(b1.value)}|{int(str(n1) == str(l1))}"
+        # with the flag off l1 is the form as given: whether normalize() leaves it alone says how the normal form is
+        # *spelled* (PT1S or PT0M1S), which is compared in spelling mode only
+        n1same = "-" if (mode == "o" and not SPELL) else int(str(n1) == str(l1))
+        line = (f"lex|{ill(l0)}|{canon(l0.value)}|{int(valid_for(dt, str(l1)))}|{canon(b1.value)}|{n1same}"
                 f"|{int(str(n2) == str(n1))}|{ill(l1)}|{canon(l1.value)}|{e_b1}|{xsdv}")
         if SPELL:
             line += "|" + "|".join(cps_str(str(x)) for x in (l0, l1, n1, n2))
@@ -895,6 +904,8 @@ def run_py(case):
                 viol.append(f"py-lexical: Literal({v!r}) has lexical form {str(l)!r}, not valid for xsd:{dtl}")
             if not py_equal(l.toPython(), v):
                 viol.append(f"py-back: Literal({v!r}).toPython() is {l.toPython()!r}")
+            elif _ne_inconsistent(l.toPython(), v) or (recognised and _ne_inconsistent(back.toPython(), v)):
+                viol.append(f"py-back: Literal({v!r}): the value read back is == the original and also != it")
             if recognised and not py_equal(back.toPython(), v):
                 viol.append(f"py-reparse: {str(l)!r}^^{dtl} (made from {v!r}) reads back as {back.toPython()!r}")
     if not py_modelled(sp) or (sp.get("dt") and sp["dt"] not in MODELLED):
@@ -948,7 +959,9 @@ def run_eq(case):
             want = bool(a.value == b.value)
         except Exception:  # noqa: BLE001
             want = None
-        if want is not None and r is not want:
+        if want is not None and _ne_inconsistent(a.value, b.value):
+            viol.append(f"eq-value: the mapped values of {a!r} and {b!r} are == ({want}) and != at the same time")
+        elif want is not None and r is not want:
             viol.append(f"eq-value: {a!r}.eq({b!r}) is {res} but the mapped values compare {want}")
         elif want is not None and r2 is not want:
             viol.append(f"eq-value: {b!r}.eq({a!r}) (other operand order) is {res2} but the mapped values compare {want}")
@@ -1410,7 +1423,7 @@ def mutate(rng, dt, s):
         return rng.choice(["", " ", "+", "-", ".", "x", "TRUE", "True", "yes", "1e3", "1_000", " 1", "1 ", "0x10", "P", "PT", "T",
                            "٣", "１２", "1 ", "2000-13-01", "2000-02-30", "1900-02-29", "25:00:00", "12:60:00", "12:00:60",
                            "2000-01-01T25:00:00", "20000101", "2000-W01-1", "12:00", "P1W", "P1.5D", "P1Y2M3DT", "PT1.S", "P-1D",
-                           "-P", "+P1D", "P1D\n", "0fb", "0g", "NaN", "INF", "inf", "nan", "Infinity", "1.", ".", "1..2", "--1", "+-1"])
+                           "-P", "+P1D", "P1D\n", "X0003-06-04T12:30:05", "P0003-06-04T12:30:05", "10003-06-04T12:30:05", "0fb", "0g", "NaN", "INF", "inf", "nan", "Infinity", "1.", ".", "1..2", "--1", "+-1"])
     if r < 0.3 and dt in INT_BOUNDS:
         lo, hi = INT_BOUNDS[dt]
         c = [x for x in (None if lo is None else lo - 1, None if hi is None else hi + 1) if x is not None]
@@ -1774,7 +1787,7 @@ def shrink(case):
                 yield {**case, "old": {**ls, "dt": None}}
             if not ls.get("norm"):
                 yield {**case, "old": {**ls, "norm": True}}
-    else:
+    elif k == "eq":
         for side in ("a", "b"):
             ls = case[side]
             if "cps" in ls:
